@@ -124,6 +124,7 @@ func checkC05(ctx *Ctx, r *Report) {
 	c05FourthRound(ctx, r)
 	c05FifthRound(ctx, r)
 	c05SixthRound(ctx, r)
+	c18HintedBranchesVisited(ctx, r)
 	c01DefinitionIdentity(ctx, r)
 }
 
